@@ -21,6 +21,7 @@ The canonical documentation for the orchestrator lifecycle and SER integration l
 
 from __future__ import annotations
 
+import copy
 import time
 import uuid
 from abc import ABC, abstractmethod
@@ -643,6 +644,21 @@ class SemantivaOrchestrator(ABC):
         )
         return checks
 
+    @staticmethod
+    def _param_snapshot(value: Any) -> Any:
+        """JSON-safe image of a parameter value as the node receives it.
+
+        Containers are detached from the live object: a processor may change a
+        list or mapping in place, and the SER reports the value actually passed.
+        """
+        safe = serialize_json_safe(value)
+        if isinstance(safe, (dict, list, tuple)):
+            try:
+                return copy.deepcopy(safe)
+            except Exception:
+                return safe
+        return safe
+
     def _resolve_params_with_sources(
         self,
         node: _PipelineNode,
@@ -655,11 +671,11 @@ class SemantivaOrchestrator(ABC):
         declared = (node_def or {}).get("parameters", {}) or {}
         defaults = getattr(node.processor, "get_default_params", lambda: {})() or {}
         for k, v in declared.items():
-            params_out[k] = serialize_json_safe(v)
+            params_out[k] = self._param_snapshot(v)
             source_out[k] = "node"
         for k in required_keys:
             if k not in params_out and k in ctx_view:
-                params_out[k] = serialize_json_safe(ctx_view[k])
+                params_out[k] = self._param_snapshot(ctx_view[k])
                 source_out[k] = "context"
         # Remaining processing parameters follow the runtime policy
         # (config > context > signature default), so defaults and defaults
@@ -674,7 +690,7 @@ class SemantivaOrchestrator(ABC):
             if k in params_out:
                 continue
             if k in ctx_view:
-                params_out[k] = serialize_json_safe(ctx_view[k])
+                params_out[k] = self._param_snapshot(ctx_view[k])
                 source_out[k] = "context"
                 continue
             info = defaults_map.get(k)
@@ -684,11 +700,11 @@ class SemantivaOrchestrator(ABC):
             elif isinstance(info, dict):
                 default = info.get("default", _NO_DEFAULT)
             if default is not _NO_DEFAULT:
-                params_out[k] = serialize_json_safe(default)
+                params_out[k] = self._param_snapshot(default)
                 source_out[k] = "default"
         for k, v in defaults.items():
             if k not in params_out:
-                params_out[k] = serialize_json_safe(v)
+                params_out[k] = self._param_snapshot(v)
                 source_out[k] = "default"
         return params_out, source_out
 
